@@ -652,7 +652,7 @@ class Interp:
             self.assign(t.value, v, frame, st)
 
     def _is_frame_self(self, base, frame):
-        return frame.self_av is not None and len(base.origins) == 1 and base.origins == frame.self_av.origins
+        return frame.self_av is not None and bool(base.origins) and base.origins == frame.self_av.origins
 
     def store_attr(self, base, attr, v, frame, st, how="="):
         if self._is_frame_self(base, frame):
@@ -668,28 +668,50 @@ class Interp:
             return AV(origins=base.origins, deps=base.deps, arr=True)
         origins = set()
         out = None
+        only_obj = True
         for (root, path) in base.origins:
             np_ = path + (attr,)
             origins.add((root, np_))
             h = self.heap.get((root, np_))
             if h is not None:
                 out = join(out, h)
-        res = AV(origins=FS(origins), deps=base.deps - base.origins)
+                if not root.startswith("obj:"):
+                    only_obj = False
+        res = AV(origins=FS(origins))
         if out is not None:
             keep = out.const
             res = join(res, out)
-            only = list(base.origins)
-            if len(only) == 1 and only[0][0].startswith("obj:"):
-                # locally constructed object: all stores are seen
+            if only_obj:
+                # locally constructed object(s): all stores are seen
                 res = res.replace(const=keep)
             else:
                 res = res.replace(const=NOCONST)
         return res
 
     # ---- control flow
+    def eval_truth(self, test, frame):
+        """Tri-state truth of a test with short-circuit knowledge
+        (`a or <known true>` is true even if `a` is unknown)."""
+        if isinstance(test, ast.BoolOp):
+            vals = [self.eval_truth(v, frame) for v in test.values]
+            if isinstance(test.op, ast.And):
+                if any(v is False for v in vals):
+                    return False
+                if all(v is True for v in vals):
+                    return True
+                return None
+            if any(v is True for v in vals):
+                return True
+            if all(v is False for v in vals):
+                return False
+            return None
+        if isinstance(test, ast.UnaryOp) and isinstance(test.op, ast.Not):
+            v = self.eval_truth(test.operand, frame)
+            return None if v is None else (not v)
+        return self.truth(self.eval(test, frame))
+
     def s_If(self, st, frame):
-        tv = self.eval(st.test, frame)
-        truth = self.truth(tv)
+        truth = self.eval_truth(st.test, frame)
         env0 = dict(frame.env)
         res_env = None
         alive = False
@@ -796,7 +818,7 @@ class Interp:
         frame.env = dict(head)
         alive = True
         if isinstance(st, ast.While):
-            t = self.truth(self.eval(st.test, frame))
+            t = self.eval_truth(st.test, frame)
             if t is True and lp.breaks is None:
                 alive = False
         if st.orelse and alive:
@@ -986,8 +1008,7 @@ class Interp:
         # method reference on an object (bound)
         ov = frame.env.get("@self." + e.attr) if self._is_frame_self(base, frame) else None
         if ov is not None:
-            (root, path), = tuple(base.origins)
-            res = join(AV(origins=FS([(root, path + (e.attr,))])), ov).replace(const=ov.const)
+            res = join(AV(origins=FS((root, path + (e.attr,)) for (root, path) in base.origins)), ov).replace(const=ov.const)
         else:
             res = self.read_attr(base, e.attr)
         # bound method refs for later calls through call_func & co.
@@ -1212,8 +1233,7 @@ class Interp:
         ) and not any(is_visible_root(o[0]) for o in av.origins)
 
     def e_IfExp(self, e, frame):
-        tv = self.eval(e.test, frame)
-        t = self.truth(tv)
+        t = self.eval_truth(e.test, frame)
         if t is True:
             return self.eval(e.body, frame)
         if t is False:
@@ -1338,6 +1358,8 @@ class Interp:
                     if ci is not None:
                         fm = self.p.find_method(ci, f.attr)
                         if fm is not None:
+                            if self.is_static(fm):
+                                return self.call_func(fm, None, None, args, kwargs, star_kw, frame, e)
                             # Class.method(self, ...) explicit
                             if args:
                                 return self.call_func(fm, frame.selfcls if frame.selfcls and self.p.is_subclass(frame.selfcls, ci.name) else ci,
@@ -1604,8 +1626,17 @@ class Interp:
                 return True
         return False
 
-    def construct(self, cref, args, kwargs, star_kw, frame, e):
+    def alloc_site(self, frame, e):
+        """allocation site with one level of call-site context (objects built
+        inside a helper are distinguished by who called the helper)"""
         site = f"obj:{frame.fi.file}:{e.lineno}:{e.col_offset}"
+        if frame.stack:
+            cf, cn = frame.stack[-1]
+            site += f"@{cf.file.split('/')[-1]}:{getattr(cn, 'lineno', 0)}"
+        return site
+
+    def construct(self, cref, args, kwargs, star_kw, frame, e):
+        site = self.alloc_site(frame, e)
         if cref.startswith("P:"):
             ci = self.p.classes.get(cref[2:])
             obj = AV(origins=FS([(site, ())]), cls=FS([cref]))
@@ -1629,6 +1660,15 @@ class Interp:
                 targets = [(frame.selfcls, f)]
         if targets:
             res = None
+            objs = [o for o in recv.origins if o[0].startswith("obj:")]
+            if len(objs) > 1:
+                # one call per constructed object (context splitting)
+                rest = FS(o for o in recv.origins if not o[0].startswith("obj:"))
+                for o in sorted(objs):
+                    r1 = recv.replace(origins=rest | FS([o]), deps=(recv.deps - FS(objs)) | FS([o]))
+                    for ci, f in targets:
+                        res = join(res, self.call_func(f, ci, r1, args, kwargs, star_kw, frame, e))
+                return res
             for ci, f in targets:
                 res = join(res, self.call_func(f, ci, recv, args, kwargs, star_kw, frame, e))
             return res
@@ -1748,7 +1788,8 @@ class Interp:
             if seed is None:
                 return FRESH
             if seed.const is None:
-                if any(isinstance(o, tuple) and is_visible_root(o[0]) for o in seed.deps):
+                if any(isinstance(o, tuple) and (o[0].startswith("p:") or (o[0] == "self" and len(o[1]) == 1))
+                       for o in seed.deps):
                     # None chosen by the caller (outside the property's premise)
                     return AV(deps=seed.deps | FS(["user_none"]), rng=True, nn=True)
                 return AV(deps=FS(["global_rng"]), rng=True, nn=True)
@@ -1770,6 +1811,9 @@ class Interp:
             if dotted == "numpy.array" and "copy" in kwargs and kwargs["copy"].const is False:
                 return AV(origins=a0.origins, deps=res.deps, arr=True)
             shallow = dotted == "copy.copy"
+            if a0.const is not NOCONST and isinstance(a0.const, (type(None), int, float, str, bool)) \
+                    and dotted in ("copy.copy", "copy.deepcopy"):
+                return AV(const=a0.const, deps=a0.deps)
             return AV(deps=a0.deps, items=dict(a0.items) if a0.items is not None else None,
                       must_keys=a0.must_keys, cls=a0.cls, ckw=a0.ckw, arr=a0.arr or dotted.startswith("numpy."),
                       elts=a0.elts if shallow else None, rng=a0.rng, nn=True,
@@ -1778,7 +1822,7 @@ class Interp:
             return a0
         # class constructor of an external estimator (capitalised last part)
         if short[:1].isupper() and not short.isupper():
-            site = f"obj:{frame.fi.file}:{e.lineno}:{e.col_offset}"
+            site = self.alloc_site(frame, e)
             ckw_items = dict(kwargs)
             must = set(k.arg for k in e.keywords if k.arg is not None)
             if star_kw is not None:
